@@ -35,8 +35,12 @@ PAIRS = [
     # the ASCII blank (no-break space, ideographic space, line separator)
     ('role:n\u00a0or\u00a0role:x', 'role:o\u3000and\u3000not\u2028role:x'),
     ('not\u00a0role:x', 'role:o'),
+    # both defaults refer to one alias (registered default 'own' = role:o)
+    ('rule:own and role:x', 'rule:own'),
+    ('not rule:own', 'rule:own'),
+    ('role:x or rule:own', 'rule:own and role:n'),
 ]
-QUICK_PAIRS = [0, 1, 2, 3, 4, 9, 10, 13, 14, 15, 16, 17]
+QUICK_PAIRS = [0, 1, 2, 3, 4, 9, 10, 13, 14, 15, 16, 17, 18, 19]
 ROLES = ['n', 'o', 'x', 'vn', 'vo', 'n2', 'n3']
 OLD_OVERRIDES = ['absent', 'arbitrary', 'arbitrary-nbsp', 'alias-first',
                  'alias-own', 'alias-spaced',
@@ -61,6 +65,9 @@ def _resembling(kind, old_cs):
 
 def _rolevar(ctx):
     def leaf(text):
+        if text == 'rule:own':
+            # the shared alias: registered default own = role:o
+            return ctx.zvar('creds.o')
         kind, match = text.split(':', 1)
         assert kind == 'role'
         return ctx.zvar('creds.%s' % match)
@@ -89,6 +96,8 @@ def run_table(ctx, pair, nshare, renamed, keeper=False):
             name=oldname or n, check_str=old_cs,
             deprecated_reason='because', deprecated_since='N')
         defaults.append(policy.RuleDefault(n, c, deprecated_rule=dep))
+    if 'rule:own' in new_cs + old_cs:
+        defaults.append(policy.RuleDefault('own', 'role:o'))
     if keeper and renamed:
         # a sibling that keeps the predecessor's name (same-name deprecation
         # of 'old'), registered first
@@ -137,7 +146,7 @@ def run_table(ctx, pair, nshare, renamed, keeper=False):
                            enforce_new_defaults=end)
         import re
         used = sorted(set(re.findall(r'role:(\w+)', ' '.join(
-            list(cs.values()) + [old_cs, 'role:kp'] +
+            list(cs.values()) + [old_cs, 'role:kp', 'role:o'] +
             list(file_rules.values())))))
         creds = {'roles': ctx.roles('creds', used)}
         leaf = _rolevar(ctx)
